@@ -344,7 +344,11 @@ def py_compare(eng, op: str, a: Val, b: Val) -> Term:
             e = py_eq(eng, a, b)
         elif isinstance(a, ObjV) and isinstance(b, ObjV):
             e = BoolVal(a.path == b.path)
-        elif isinstance(a, V) and isinstance(b, V) and isinstance(a.ty, TBool) and isinstance(b.ty, TBool):
+        elif isinstance(a, V) and isinstance(b, V) and a.ty == b.ty and isinstance(a.ty, (TBool, TInt)):
+            e = Eq(a.t, b.t)
+        elif isinstance(a, V) and isinstance(b, V) and a.ty == b.ty and isinstance(a.ty, TOpt) \
+                and isinstance(a.ty.inner, TInt):
+            # object identities modelled by integers: `is` is equality of the (optional) identity
             e = Eq(a.t, b.t)
         else:
             raise GenerationError(f"'is' between {a} and {b}")
@@ -502,7 +506,13 @@ def seq_method(eng, st, recv: V, name: str, args: list[Val], origin: str):
     ty = recv.ty
     s = recv.t
     if name == "append" and len(args) == 1:
-        it = coerce(eng, args[0], ty.elem)
+        a0 = args[0]
+        if isinstance(a0, V) and isinstance(a0.ty, TOpt) and a0.ty.inner == ty.elem:
+            # the sequence is declared to hold proper values: pushing None is an obligation, not a Python error
+            eng.oblige(f"{eng.c.prop}/{eng.c.short}/model.pushed_value_not_none[{origin}]", st, eng.decls.is_some(a0.t),
+                       kind="call_pre")
+            a0 = wrap(eng, ty.elem, eng.decls.opt_val(a0.t))
+        it = coerce(eng, a0, ty.elem)
         return NoneV(), V(ty, Concat(s, smt.Unit(it.t)))
     if name == "extend" and len(args) == 1:
         return NoneV(), V(ty, Concat(s, coerce(eng, args[0], ty).t))
